@@ -220,12 +220,23 @@ SimSuccGen == CanGenSucc # {} /\ \E p \in {RandomElement({q \in CanGenSucc : Z =
 SimSuccCreate ==
     \E p \in OneMem : \E kind \in {IF grp[p].frozen THEN <<"reinit", "reinit", "reinit", "branch">>[RandomElement(1..(4 + Z))]
                                                       ELSE <<"branch", "branch", "reinit">>[RandomElement(1..(3 + Z))]} :
-        \E S \in {PickSuccSet(p)} : SuccCreate(kind, p, S)
+        \E S \in {PickSuccSet(p)} :
+            \E tw \in {IF "succtweak" \in Features /\ RandomElement(1..(4 + Z)) <= (IF kind = "reinit" THEN 2 ELSE 1)
+                        THEN (IF kind = "reinit" THEN <<"gid", "gid", "ext">>[RandomElement(1..(3 + Z))] ELSE "ext") ELSE "none"} :
+                SuccCreate(kind, p, S, tw)
 Joinable == {s \in 1..Len(succ) : DOMAIN succ[s].kp # {}}
 SimSuccForge ==
     \E r \in OneMem : \E p \in {RParty} : \E kind \in {<<"reinit", "branch">>[RandomElement(1..(2 + Z))]} :
         \E S \in {UNION {NewestSuccKp(q) : q \in Members(grp[r].tree) \ {p}}} : SuccForge(kind, p, r, S)
 SimSuccJoin ==
+    \* (successors whose creator deviated from the announcement are tried first, through the matching API, by a party
+    \* that could have joined the honest version)
+    LET tw == {x \in Joinable : succ[x].tweak # "none" /\ \E q \in DOMAIN succ[x].kp : HasGroup(q) /\ grp[q].ks = succ[x].ks /\ ~\E i \in 1..Len(hist) : hist[i].a = "SuccJoin" /\ hist[i].p = q /\ hist[i].args.succ = x}
+    IN IF tw # {}
+       THEN \E s \in {RandomElement({x \in tw : Z = 0})} :
+                \E q \in {RandomElement({q \in DOMAIN succ[s].kp : HasGroup(q) /\ grp[q].ks = succ[s].ks /\ ~\E i \in 1..Len(hist) : hist[i].a = "SuccJoin" /\ hist[i].p = q /\ hist[i].args.succ = s})} :
+                    SuccJoin(q, s, succ[s].kind)
+       ELSE
     Joinable # {} /\ \E s \in {RandomElement({x \in Joinable : Z = 0})} : \E q \in {RandomElement(DOMAIN succ[s].kp)} :
         \E how \in {IF HasGroup(q) THEN <<"reinit", "branch", "plain", succ[s].kind, succ[s].kind, succ[s].kind>>[RandomElement(1..(6 + Z))] ELSE "plain"} :
             SuccJoin(q, s, how)
